@@ -99,7 +99,41 @@ def skel(le, n, fal, sigs):
     return a
 
 
-exact_unit('u.le24', 24, skel(1, 24, 8, [(16, 'u')]), 'quick', note='little endian, 24 bytes, one field (code symbolic) with variant signature "u"')
-exact_unit('uu.le32', 32, skel(1, 32, 16, [(16, 'u'), (24, 'u')]), 'quick', note='little endian, 32 bytes, two fields (codes symbolic) with variant signature "u"')
-exact_unit('s.le32', 32, skel(1, 32, None, [(16, 's')]), 'quick', note='little endian, 32 bytes, one field (code symbolic) with variant signature "s", string length and fields-array length symbolic')
+def u32(le, v):
+    w = [v & 255, (v >> 8) & 255, (v >> 16) & 255, (v >> 24) & 255]
+    if not le:
+        w.reverse()
+    return w
 
+
+def skel_str(le, t, L, extra_u=False):
+    """one field with variant signature t in 's','o' and a string of concrete length L (content, NUL and padding symbolic);
+    optionally followed by a second field with signature 'u'"""
+    fal = 8 + L + 1
+    sigs = [(16, t)]
+    if extra_u:
+        off = (16 + fal + 7) & ~7
+        sigs.append((off, 'u'))
+        fal = off + 8 - 16
+    n = (16 + fal + 7) & ~7
+    a = skel(le, n, fal, sigs) + ''.join('in_buf[%d]=%d;' % (20 + i, b) for i, b in enumerate(u32(le, L)))
+    return n, a
+
+
+def skel_sig(le, L):
+    fal = 4 + 1 + L + 1
+    n = (16 + fal + 7) & ~7
+    return n, skel(le, n, fal, [(16, 'g')]) + 'in_buf[20]=%d;' % L
+
+
+for _i, (_nm, _mk) in enumerate([
+        ('u', lambda le: (24, skel(le, 24, 8, [(16, 'u')]), 'one field (code symbolic) with variant signature "u"')),
+        ('uu', lambda le: (32, skel(le, 32, 16, [(16, 'u'), (24, 'u')]), 'two fields (codes symbolic) with variant signature "u"')),
+        ('s3', lambda le: skel_str(le, 's', 3) + ('one field (code symbolic), signature "s", 3 content bytes, 4 padding bytes, all symbolic',)),
+        ('s7', lambda le: skel_str(le, 's', 7) + ('one field (code symbolic), signature "s", 7 content bytes symbolic',)),
+        ('o3', lambda le: skel_str(le, 'o', 3) + ('one field (code symbolic), signature "o", 3 content bytes symbolic',)),
+        ('s3u', lambda le: skel_str(le, 's', 3, True) + ('two fields (codes symbolic): "s" with 3 content bytes, then "u"',)),
+        ('g2', lambda le: skel_sig(le, 2) + ('one field (code symbolic), signature "g" holding a 2-byte signature',))]):
+    for _le, _tier in ((_i % 2, 'quick'), (1 - _i % 2, 'thorough')):
+        _n, _a, _note = _mk(_le)
+        exact_unit('%s.%s%d' % (_nm, 'le' if _le else 'be', _n), _n, _a, _tier, note=('little' if _le else 'big') + ' endian, %d bytes, ' % _n + _note)
